@@ -21,7 +21,7 @@ pub struct VissConn {
     _server: tokio::task::JoinHandle<()>,
 }
 
-fn read_file(p: &str) -> String {
+pub fn read_file(p: &str) -> String {
     std::fs::read_to_string(p).unwrap_or_else(|_| panic!("cannot read {}", p))
 }
 
